@@ -2,6 +2,7 @@
 from checks.common import Ctx
 from sa.report import Check, RuleResult
 from sa.rules import cpp_rules as C
+from sa.rules import window_rules as WN
 
 
 def main(tier):
@@ -18,11 +19,12 @@ def main(tier):
             "standard with shift-count / integer-overflow / division-by-zero diagnostics as errors, and must refuse "
             "companion units with widths 65, Float:16, Flag:2 and a 72-bit BitBlock by a static_assert (positive "
             "control). (R-TWIN, R-MIRROR) checked and unchecked read paths compute the same expression once checks are "
-            "removed, and the little/big-endian orderers and buffer accessors are mirror images. "
+            "removed, and the little/big-endian orderers and buffer accessors are mirror images; (R-WINDOW) every method of a window class (data member offset_) that touches the underlying block applies offset_, directly or through its own helpers. "
             "Not decided: bit numbering, masks, sign extension, BCD and float decoding values."),
         assumptions=["no value is computed by constexpr evaluation; only type-level facts and constant-operand "
                      "diagnostics of clang are used"])
     chk.run("R-WIDTHS", lambda: cx.widths, floor=3000)
     chk.run("R-TWIN", C.twin, cx.cpp, floor=40, control=lambda: cx.cpp_control)
     chk.run("R-MIRROR", C.mirror, cx.cpp, floor=8)
+    chk.run("R-WINDOW", WN.window, cx.cpp, floor=5)
     return chk.finish()
